@@ -10,16 +10,64 @@ from .core.effects import Effects, provenance
 from .core.taint import Taint
 from .c02 import exception_class
 from .persistord import check_atomic_replace
+from .core.symexpr import expr, show, strip_refs
 
 RULES = {
     "C09.1a": "should_persist returns true on every path when the consistency is StrictlyAtOnce (its sub-CFG is evaluated for force in {true,false})",
     "C09.1b": "persist-before-return in read_next (only-allowed-bypass): from every checkpoint-guarded cursor commit, the paths to `return Ok(Some(entry))` reach WalIndex::set; the only "
               "branches that may bypass it are: should_persist returned false (or the Option carrying its verdict is None), checkpoint is false, or the index lock is poisoned; the "
               "position written is the committed one and the key is the topic",
+    "C09.1d": "persisted position = cursor position (reaching stores): at every point of read_next where the (index, offset) pair later handed to WalIndex::set is packaged, every store "
+              "to the cursor's offset field (cur_block_offset resp. tail_offset, directly or through a callee) that reaches that point without being overwritten stores the very value that "
+              "is packaged; a path on which the cursor was moved to another position than the one persisted makes a restart resume from a position the consumer never was at",
     "C09.1c": "persist-before-return in batch_read_for_topic: in the commit closure the `persist to disk` flag is cleared only under ReadConsistency::AtLeastOnce; a persist target is "
               "recorded on both the tail and the sealed arm whenever the flag is set; in the caller both non-empty targets reach WalIndex::set with the only bypass being the poisoned lock",
     "C09.2": "index replacement order (ORD in WalIndex::persist): write tmp -> fsync tmp -> rename over the index (directory fsync is C10.4's obligation), and WalIndex::set calls persist on every path",
 }
+
+
+_SINKS = {}
+
+
+def index_setters(ctx, facts):
+    """Methods of WalIndex that record a position (key, index, offset) and (may) reach
+    WalIndex::persist.  Returns a regex matching their call sites.  A setter that can return
+    without persisting is a violation wherever a consuming read relies on it."""
+    if id(facts) in _SINKS:
+        return _SINKS[id(facts)]
+    pers = "index::WalIndex::persist"
+    names = {}
+    changed = True
+    must = {pers: True}
+    while changed:
+        changed = False
+        for name, b in facts.bodies.items():
+            sn = common.short_fn(name)
+            if not sn.startswith("index::WalIndex::") or sn in must or b.kind == "closure" or sn.endswith("::persist"):
+                continue
+            cs = [c for c in b.calls() if common.short_fn(strip_generics(c.node.get("callee") or "")) in must]
+            if not cs:
+                continue
+            good = [c for c in cs if must[common.short_fn(strip_generics(c.node.get("callee") or ""))]]
+            must[sn] = bool(good) and b.must_pass([0], b.return_blocks(), [c.bb for c in good])
+            names[sn] = b
+            changed = True
+    setters = {sn: b for sn, b in names.items() if b.arg_count == 4}
+    rx = re.compile("|".join(re.escape(sn) + "$" for sn in sorted(setters)) or r"index::WalIndex::set$")
+    _SINKS[id(facts)] = (rx, setters, must)
+    return _SINKS[id(facts)]
+
+
+def check_setters_used(ctx, facts, b, F, calls):
+    rx, setters, must = index_setters(ctx, facts)
+    for c in calls:
+        sn = common.short_fn(strip_generics(c.node.get("callee") or ""))
+        if must.get(sn):
+            continue
+        sb = setters.get(sn)
+        ctx.violate("C09.1b", F, "position-setter-can-skip-persist:" + sn.split("::")[-1], b.relfile, c.line,
+                    "the consumed position is handed to %s, which can return Ok without having written the index (%s:%s): the read returns although its position is not durable, or a "
+                    "later, smaller-looking position (a tail position folded into the sealed chain) is never recorded" % (sn, sb.relfile if sb else "?", sb.line if sb else "?"))
 
 
 def check_should_persist(ctx, facts):
@@ -136,7 +184,8 @@ def check_read_next_persist(ctx, facts):
     cp = checkpoint_edges(b)
     cp_keys = flag_places(b, "checkpoint")
     n = 0
-    sets = b.calls(re.compile(r"index::WalIndex::set$"))
+    sets = b.calls(index_setters(ctx, facts)[0])
+    check_setters_used(ctx, facts, b, F, sets)
     sps = b.calls(re.compile(r"should_persist$"))
     # locals carrying a should_persist verdict (data/control dependent)
     verdict = set()
@@ -188,13 +237,137 @@ def check_read_next_persist(ctx, facts):
                 ctx.ok("C09.1b", F, "persisted key is the topic argument", b.relfile, s.line)
             else:
                 ctx.violate("C09.1b", F, "persisted-key", b.relfile, s.line, "the position is persisted under a key that is not the topic argument")
-            committed = pack_leaves(b, site.node["rv"]["op"])
-            persisted = pack_leaves(b, s.node["args"][3])
-            if committed and committed <= persisted:
-                ctx.ok("C09.1b", F, "persisted offset is the committed offset", b.relfile, s.line)
-            else:
-                ctx.violate("C09.1b", F, "persisted-offset-differs", b.relfile, s.line, "the offset handed to WalIndex::set is not the one committed to the cursor")
     ctx.floor("C09.1b", "checkpoint-guarded cursor commits in read_next", n, 2)
+
+
+def pack_sites(b, operand, depth=10):
+    """Statements that build the tuple from which `operand` was later unpacked (follows copies,
+    casts, field/downcast projections and Option wrapping backwards)."""
+    out = []
+    seen = set()
+    p0 = op_place(operand)
+    if p0 is None:
+        return out
+    work = [(p0["l"], bool(p0["p"]))]
+    while work:
+        l, projected = work.pop()
+        if l in seen:
+            continue
+        seen.add(l)
+        for site, kind, node in b.defs.get(l, []):
+            if kind != "assign":
+                continue
+            rv = node["rv"]
+            if rv["k"] in ("use", "cast"):
+                q = op_place(rv["op"])
+                if q is not None:
+                    work.append((q["l"], projected or bool(q["p"])))
+            elif rv["k"] == "agg":
+                if rv.get("akind") == "tuple" and len(rv["ops"]) >= 2:
+                    out.append(site)
+                else:
+                    for o in rv["ops"]:
+                        q = op_place(o)
+                        if q is not None:
+                            work.append((q["l"], projected))
+    return out
+
+
+def reaching_stores(b, stores, at):
+    """stores: list of Site (statement or call terminator) that all write one abstract location.
+    Returns the subset that reaches program point `at` (a Site) without an intervening store."""
+    by_bb = {}
+    for st in stores:
+        by_bb.setdefault(st.bb, []).append(st)
+
+    def order(x):
+        return 10 ** 9 if x.idx == "term" else x.idx
+    for v in by_bb.values():
+        v.sort(key=order)
+    # stores of at.bb that precede `at`
+    before = [x for x in by_bb.get(at.bb, []) if order(x) < order(at)]
+    if before:
+        return [before[-1]]
+    out = []
+    seen = set()
+    work = list(b.pred[at.bb])
+    while work:
+        n = work.pop()
+        if n in seen or n not in b.live_blocks:
+            continue
+        seen.add(n)
+        if n in by_bb:
+            if n == at.bb:
+                # reached again through a back edge: the stores after `at` in this block
+                out.append(by_bb[n][-1])
+            else:
+                out.append(by_bb[n][-1])
+            continue
+        work.extend(b.pred[n])
+    return out
+
+
+def check_persisted_equals_cursor(ctx, facts):
+    b = facts.body("read_next")
+    F = common.short_fn(b.name)
+    eff = Effects(facts)
+    sets = b.calls(index_setters(ctx, facts)[0])
+    stores = {"cur_block_offset": [], "tail_offset": []}
+    for site, kinds, callee in eff.sites(b):
+        for k in kinds:
+            if k.startswith("store:ColReaderInfo.") and k.split(".")[-1] in stores:
+                stores[k.split(".")[-1]].append((site, callee))
+    n = 0
+    seen_p = set()
+    for s in sets:
+        for P in pack_sites(b, s.node["args"][3]):
+            if (P.bb, P.idx) in seen_p:
+                continue
+            seen_p.add((P.bb, P.idx))
+            packed = pack_leaves(b, P.node["rv"]["ops"][-1])
+            packed_sym = show(strip_refs(expr(b, P.node["rv"]["ops"][-1])), 10)
+            if not packed:
+                continue   # a constant offset (provisional positions) says nothing about a commit
+            assoc = None
+            for fld, sts in stores.items():
+                rs = reaching_stores(b, [x for x, _ in sts], P)
+                vals = []
+                for r in rs:
+                    callee = next(c for x, c in sts if x is r)
+                    if callee is not None:
+                        vals.append((r, None))
+                    else:
+                        v = pack_leaves(b, r.node["rv"]["op"])
+                        # the same value spelled out twice is the same value
+                        if v != packed and show(strip_refs(expr(b, r.node["rv"]["op"])), 10) == packed_sym:
+                            v = packed
+                        vals.append((r, v))
+                if any(v == packed for _, v in vals):
+                    assoc = (fld, vals)
+            if assoc is None:
+                # the package reads the cursor field itself: consistent by construction
+                m = re.search(r"\.(cur_block_offset|tail_offset)\b", packed_sym)
+                if m and stores[m.group(1)]:
+                    n += 1
+                    ctx.ok("C09.1d", F, "the packaged offset is read from the cursor field %s itself" % m.group(1), b.relfile, P.line)
+                else:
+                    n += 1
+                    ctx.violate("C09.1d", F, "persisted-offset-is-not-a-committed-offset", b.relfile, P.line,
+                                "the offset packaged for WalIndex::set (%s) is not the value of any store to the cursor that reaches this point: the index records a position other "
+                                "than the one the consumer is at" % sorted(b.local_name(x) or "_%d" % x for x in packed))
+                continue
+            n += 1
+            fld, vals = assoc
+            bad = [(r, v) for r, v in vals if v != packed]
+            if bad:
+                r = bad[0][0]
+                ctx.violate("C09.1d", F, "persisted-offset-differs-from-cursor:" + fld, b.relfile, r.line,
+                            "the position packaged for WalIndex::set at line %s carries the offset %s, but on a path reaching it the cursor's %s was last set to a different value "
+                            "(line %s): the index then records a position the consumer is not at, and a restart resumes from there" % (
+                                P.line, sorted(b.local_name(x) or "_%d" % x for x in packed), fld, r.line))
+            else:
+                ctx.ok("C09.1d", F, "every store to %s reaching the package of the persisted position stores the packaged offset" % fld, b.relfile, P.line)
+    ctx.floor("C09.1d", "packaged persisted positions in read_next", n, 2)
 
 
 def check_batch_persist(ctx, facts):
@@ -277,7 +450,8 @@ def check_batch_persist(ctx, facts):
         else:
             ctx.ok("C09.1c", CF, "with the flag set every commit path records a persist target", clo.relfile, clo.line)
     # caller: both arms reach WalIndex::set
-    sets = b.calls(re.compile(r"index::WalIndex::set$"))
+    sets = b.calls(index_setters(ctx, facts)[0])
+    check_setters_used(ctx, facts, b, F, sets)
     for T in all_tests(b):
         if T.kind == "discr" and not T.place["p"] and "PersistTarget" in b.local_ty(T.place["l"]):
             adt_t = None
@@ -328,6 +502,7 @@ def run(ctx):
     facts = common.mir(ctx, "walrus_rust")
     check_should_persist(ctx, facts)
     check_read_next_persist(ctx, facts)
+    check_persisted_equals_cursor(ctx, facts)
     check_batch_persist(ctx, facts)
     check_index(ctx, facts)
     ctx.assume("NOT decided: the provisional `TAIL_FLAG|id, 0` persist before the tail read, tail block ids versus recovery's synthetic ids (value-level), the AtLeastOnce redelivery bound")
